@@ -190,9 +190,28 @@ class PairAware(object):
         return None
 
 
+def _structured_canon(canon):
+    """the property's canonical form applied answer by answer: the answers of a PAIR line are joined by ` || `, the answer of a REPEAT
+    segment carries ` SAME` / ` DIFF@k ..` behind the first answer"""
+    def one(p):
+        tail = ""
+        if p.endswith(" SAME"):
+            p, tail = p[:-5], " SAME"
+        elif " DIFF@" in p:
+            p, _, rest = p.partition(" DIFF@")
+            tail = " DIFF@" + rest
+        return "%s%s" % (canon(p), tail)
+
+    def f(out):
+        if out is None or (" || " not in out and not out.endswith(" SAME") and " DIFF@" not in out):
+            return canon(out)
+        return " || ".join(one(p) for p in out.split(" || "))
+    return f
+
+
 def run_property(P, pid, tier, seed, replay):
     P = PairAware(RepeatAware(P))
-    canon = getattr(P, "canon", default_canon)
+    canon = _structured_canon(getattr(P, "canon", default_canon))
     t0 = time.time()
     rng = vlib.Rng(seed)
     breaks = []          # proof / translator / audit / build / correspondence breaks
